@@ -13,6 +13,10 @@ finds, never panic, do not modify memory and read exactly the entries the hardwa
 everywhere the hardware does — see the `example`s in the last section, which show that each clause
 of `PathOK` is necessary.
 
+The ghost log `St.log` is newest-first (`St.events = log.reverse` is the chronological order), so
+"appends the events `l` (given chronologically)" reads `{ s with log := l.reverse ++ s.log }`
+throughout; `St.events_append` / `translate_events` give the equivalent `events = s.events ++ l`.
+
 Helper lemmas: `Proofs/Translate.lean`.
 -/
 import X86Model.Proofs.Translate
@@ -221,7 +225,8 @@ theorem translate_eq_for (k : Kind) (s : St) (p4 : Word) (va : Nat)
     (h : PathOKFor k s.mem p4 va) :
     translate k s p4 va =
       (render s.mem p4 va,
-       { s with log := s.log ++ (pathReads s.mem p4 va).take (walkDepth s.mem p4 va) }) := by
+       { s with log :=
+          ((pathReads s.mem p4 va).take (walkDepth s.mem p4 va)).reverse ++ s.log }) := by
   obtain ⟨⟨h4, h4ps⟩, h3, h2, h1⟩ := h
   have hE := translateE_eq k (ent4 s.mem p4 va) (ent3 s.mem p4 va) (ent2 s.mem p4 va)
     (ent1 s.mem p4 va) va h4 h4ps
@@ -233,19 +238,30 @@ theorem translate_eq_for (k : Kind) (s : St) (p4 : Word) (va : Nat)
   show ((translateE k (ent4 s.mem p4 va) (ent3 s.mem p4 va) (ent2 s.mem p4 va)
       (ent1 s.mem p4 va) va).1,
     { s with
-      log := s.log ++ (pathReads s.mem p4 va).take (translateE k (ent4 s.mem p4 va)
-                        (ent3 s.mem p4 va) (ent2 s.mem p4 va) (ent1 s.mem p4 va) va).2 }) = _
+      log := ((pathReads s.mem p4 va).take (translateE k (ent4 s.mem p4 va)
+                (ent3 s.mem p4 va) (ent2 s.mem p4 va) (ent1 s.mem p4 va) va).2).reverse
+                ++ s.log }) = _
   rw [hE]
 
 theorem translate_eq (k : Kind) (s : St) (p4 : Word) (va : Nat) (h : PathOK s.mem p4 va) :
     translate k s p4 va =
       (render s.mem p4 va,
-       { s with log := s.log ++ (pathReads s.mem p4 va).take (walkDepth s.mem p4 va) }) :=
+       { s with log :=
+          ((pathReads s.mem p4 va).take (walkDepth s.mem p4 va)).reverse ++ s.log }) :=
   translate_eq_for k s p4 va (h.toFor k)
 
+/-- The same in chronological form: the events after `translate` are the events before, followed
+by exactly the reads of the hardware walk, in the order the hardware performs them. -/
+theorem translate_events (k : Kind) (s : St) (p4 : Word) (va : Nat) (h : PathOK s.mem p4 va) :
+    (translate k s p4 va).2.events =
+      s.events ++ (pathReads s.mem p4 va).take (walkDepth s.mem p4 va) := by
+  rw [translate_eq k s p4 va h]; exact St.events_append s _
+
 example : (translate ⟨true⟩ demoSt 0x1000#64 0x5123).1 = .ok (.mapped 0x7000#64 4096 0x123 0x1005#64) ∧
-    (translate ⟨true⟩ demoSt 0x1000#64 0x5123).2.log =
+    (translate ⟨true⟩ demoSt 0x1000#64 0x5123).2.events =
       [.alloc none, .rd 0x1000#64 0, .rd 0x2000#64 0, .rd 0x3000#64 0, .rd 0x4000#64 5] ∧
+    (translate ⟨true⟩ demoSt 0x1000#64 0x5123).2.log =
+      [.rd 0x4000#64 5, .rd 0x3000#64 0, .rd 0x2000#64 0, .rd 0x1000#64 0, .alloc none] ∧
     walkDepth demoMem 0x1000#64 0x5123 = 4 := by decide
 
 /-- For the non-recursive mappers `PathOKFor` is not only sufficient but necessary: `translate`
@@ -390,7 +406,8 @@ theorem translate_page_4K_eq_for (k : Kind) (s : St) (p4 : Word) (va : Nat)
     translatePage k s p4 [va / 2^39 % 512, va / 2^30 % 512, va / 2^21 % 512] (va / 2^12 % 512)
         false 4096 =
       (expect4K s.mem p4 va,
-       { s with log := s.log ++ (pathReads s.mem p4 va).take (walkDepth s.mem p4 va) }) := by
+       { s with log :=
+          ((pathReads s.mem p4 va).take (walkDepth s.mem p4 va)).reverse ++ s.log }) := by
   obtain ⟨⟨h4, h4ps⟩, h3, h2, h1⟩ := h
   have hE := tpE_4K k (ent4 s.mem p4 va) (ent3 s.mem p4 va) (ent2 s.mem p4 va)
     (ent1 s.mem p4 va) va h4 h4ps
@@ -402,9 +419,9 @@ theorem translate_page_4K_eq_for (k : Kind) (s : St) (p4 : Word) (va : Nat)
   show ((tpE k false 4096 [ent4 s.mem p4 va, ent3 s.mem p4 va, ent2 s.mem p4 va]
       (ent1 s.mem p4 va)).1,
     { s with
-      log := s.log ++ (pathReads s.mem p4 va).take (tpE k false 4096
-                        [ent4 s.mem p4 va, ent3 s.mem p4 va, ent2 s.mem p4 va]
-                        (ent1 s.mem p4 va)).2 }) = _
+      log := ((pathReads s.mem p4 va).take (tpE k false 4096
+                [ent4 s.mem p4 va, ent3 s.mem p4 va, ent2 s.mem p4 va]
+                (ent1 s.mem p4 va)).2).reverse ++ s.log }) = _
   rw [hE]; rfl
 
 /-- **`translate_page::<Size4KiB>`** returns `expect4K` and reads what the hardware reads. -/
@@ -413,7 +430,8 @@ theorem translate_page_4K_eq (k : Kind) (s : St) (p4 : Word) (va : Nat)
     translatePage k s p4 [va / 2^39 % 512, va / 2^30 % 512, va / 2^21 % 512] (va / 2^12 % 512)
         false 4096 =
       (expect4K s.mem p4 va,
-       { s with log := s.log ++ (pathReads s.mem p4 va).take (walkDepth s.mem p4 va) }) :=
+       { s with log :=
+          ((pathReads s.mem p4 va).take (walkDepth s.mem p4 va)).reverse ++ s.log }) :=
   translate_page_4K_eq_for k s p4 va (h.toFor k)
 
 example : (translatePage ⟨true⟩ demoSt 0x1000#64 [0, 0, 0] 5 false 4096).1 = .ok 0x7000#64 ∧
@@ -427,7 +445,8 @@ hardware walk. Only the entries down to level 2 need to be well-formed. -/
 theorem translate_page_2M_eq (k : Kind) (s : St) (p4 : Word) (va : Nat) (h : OK2 s.mem p4 va) :
     translatePage k s p4 [va / 2^39 % 512, va / 2^30 % 512] (va / 2^21 % 512) true (2^21) =
       (expect2M s.mem p4 va,
-       { s with log := s.log ++ (pathReads s.mem p4 va).take (min (walkDepth s.mem p4 va) 3) }) := by
+       { s with log :=
+          ((pathReads s.mem p4 va).take (min (walkDepth s.mem p4 va) 3)).reverse ++ s.log }) := by
   obtain ⟨⟨⟨h4, h4ps⟩, h3⟩, h2⟩ := h
   have hE := tpE_2M k (ent4 s.mem p4 va) (ent3 s.mem p4 va) (ent2 s.mem p4 va)
     (ent1 s.mem p4 va) va (NtOK_of_entOK k h4) h4ps
@@ -436,10 +455,10 @@ theorem translate_page_2M_eq (k : Kind) (s : St) (p4 : Word) (va : Nat) (h : OK2
   rw [translatePage_eq_E, walkDepth_eq]
   show ((tpE k true (2^21) [ent4 s.mem p4 va, ent3 s.mem p4 va] (ent2 s.mem p4 va)).1,
     { s with
-      log := s.log ++ ([Ev.rd p4 (vaIdx4 va), .rd (tableAddr (ent4 s.mem p4 va)) (vaIdx3 va),
-                        .rd (tableAddr (ent3 s.mem p4 va)) (vaIdx2 va)]).take
-                        (tpE k true (2^21) [ent4 s.mem p4 va, ent3 s.mem p4 va]
-                          (ent2 s.mem p4 va)).2 }) = _
+      log := (([Ev.rd p4 (vaIdx4 va), .rd (tableAddr (ent4 s.mem p4 va)) (vaIdx3 va),
+                .rd (tableAddr (ent3 s.mem p4 va)) (vaIdx2 va)]).take
+                (tpE k true (2^21) [ent4 s.mem p4 va, ent3 s.mem p4 va]
+                  (ent2 s.mem p4 va)).2).reverse ++ s.log }) = _
   rw [hE]
   simp only [← List.take_take]
   rfl
@@ -456,7 +475,8 @@ hardware walk. Only the P4 and P3 entries need to be well-formed. -/
 theorem translate_page_1G_eq (k : Kind) (s : St) (p4 : Word) (va : Nat) (h : OK3 s.mem p4 va) :
     translatePage k s p4 [va / 2^39 % 512] (va / 2^30 % 512) true (2^30) =
       (expect1G s.mem p4 va,
-       { s with log := s.log ++ (pathReads s.mem p4 va).take (min (walkDepth s.mem p4 va) 2) }) := by
+       { s with log :=
+          ((pathReads s.mem p4 va).take (min (walkDepth s.mem p4 va) 2)).reverse ++ s.log }) := by
   obtain ⟨⟨h4, h4ps⟩, h3⟩ := h
   have hE := tpE_1G k (ent4 s.mem p4 va) (ent3 s.mem p4 va) (ent2 s.mem p4 va)
     (ent1 s.mem p4 va) va (NtOK_of_entOK k h4) h4ps
@@ -464,8 +484,8 @@ theorem translate_page_1G_eq (k : Kind) (s : St) (p4 : Word) (va : Nat) (h : OK3
   rw [translatePage_eq_E, walkDepth_eq]
   show ((tpE k true (2^30) [ent4 s.mem p4 va] (ent3 s.mem p4 va)).1,
     { s with
-      log := s.log ++ ([Ev.rd p4 (vaIdx4 va), .rd (tableAddr (ent4 s.mem p4 va)) (vaIdx3 va)]).take
-                        (tpE k true (2^30) [ent4 s.mem p4 va] (ent3 s.mem p4 va)).2 }) = _
+      log := (([Ev.rd p4 (vaIdx4 va), .rd (tableAddr (ent4 s.mem p4 va)) (vaIdx3 va)]).take
+                (tpE k true (2^30) [ent4 s.mem p4 va] (ent3 s.mem p4 va)).2).reverse ++ s.log }) = _
   rw [hE]
   simp only [← List.take_take]
   rfl
@@ -578,7 +598,8 @@ tables referenced by present PS = 0 entries on the path. -/
 prefix of the reads of a full walk along the address fields of the entries of `va`. -/
 theorem translate_frame (k : Kind) (s : St) (p4 : Word) (va : Nat) :
     ∃ n, 1 ≤ n ∧ n ≤ 4 ∧
-      (translate k s p4 va).2 = { s with log := s.log ++ (pathReads s.mem p4 va).take n } := by
+      (translate k s p4 va).2 =
+        { s with log := ((pathReads s.mem p4 va).take n).reverse ++ s.log } := by
   rw [translate_eq_E]
   exact ⟨_, (translateE_count k _ _ _ _ va).1, (translateE_count k _ _ _ _ va).2, rfl⟩
 
@@ -592,7 +613,8 @@ theorem translate_allocs (k : Kind) (s : St) (p4 : Word) (va : Nat) :
 
 theorem translate_addr_frame (k : Kind) (s : St) (p4 : Word) (va : Nat) :
     ∃ n, 1 ≤ n ∧ n ≤ 4 ∧
-      (translateAddr k s p4 va).2 = { s with log := s.log ++ (pathReads s.mem p4 va).take n } := by
+      (translateAddr k s p4 va).2 =
+        { s with log := ((pathReads s.mem p4 va).take n).reverse ++ s.log } := by
   rw [translateAddr_state]; exact translate_frame k s p4 va
 
 theorem translate_addr_mem (k : Kind) (s : St) (p4 : Word) (va : Nat) :
@@ -605,8 +627,8 @@ address field of the entry read before) followed by the read of the slot. -/
 theorem translate_page_frame (k : Kind) (s : St) (p4 : Word) (ps : List Nat) (li : Nat)
     (huge : Bool) (sz : Nat) :
     ∃ n, (translatePage k s p4 ps li huge sz).2 =
-      { s with log := s.log ++
-          (readsOf s.mem p4 ps ++ [Ev.rd (lastTbl s.mem p4 ps) li]).take n } := by
+      { s with log :=
+          ((readsOf s.mem p4 ps ++ [Ev.rd (lastTbl s.mem p4 ps) li]).take n).reverse ++ s.log } := by
   rw [translatePage_eq_E]; exact ⟨_, rfl⟩
 
 theorem translate_page_mem (k : Kind) (s : St) (p4 : Word) (ps : List Nat) (li : Nat)
@@ -655,7 +677,7 @@ theorem pathReads_tables (m : PMem) (p4 : Word) (va : Nat) :
 /-- Under `PathOK`, `translate` reads only in-range slots of `p4` and of table frames on the path. -/
 theorem translate_reads_tables (k : Kind) (s : St) (p4 : Word) (va : Nat)
     (h : PathOK s.mem p4 va) :
-    ∃ l, (translate k s p4 va).2 = { s with log := s.log ++ l } ∧
+    ∃ l : List Ev, (translate k s p4 va).2 = { s with log := l.reverse ++ s.log } ∧
       ∀ ev ∈ l, ∃ f i, ev = Ev.rd f i ∧ f ∈ pathTables s.mem p4 va ∧ i < 512 := by
   rw [translate_eq k s p4 va h]
   exact ⟨_, rfl, pathReads_tables s.mem p4 va⟩
